@@ -6,6 +6,7 @@ import (
 	"fmt"
 	"io"
 	"os"
+	"path/filepath"
 	"runtime"
 	"strings"
 
@@ -231,6 +232,21 @@ Usage:
 	query, err := gojq.Parse(arg)
 	if err != nil {
 		return &queryParseError{fname, arg, err}
+	}
+	if opts.FromFile {
+		// relative search paths are relative to the directory of the query file
+		for _, i := range query.Imports {
+			if i.Meta == nil {
+				continue
+			}
+			for _, e := range i.Meta.KeyVals {
+				if path := e.Val.Str; (e.Key == "search" || e.KeyString == "search") &&
+					path != "" && !filepath.IsAbs(path) &&
+					!strings.HasPrefix(path, "~/") && !strings.HasPrefix(path, "$ORIGIN/") {
+					e.Val.Str = filepath.Join(filepath.Dir(fname), path)
+				}
+			}
+		}
 	}
 	modulePaths := opts.ModulePaths
 	if len(modulePaths) == 0 && addDefaultModulePaths {
